@@ -7,6 +7,7 @@ V = os.path.dirname(os.path.dirname(os.path.abspath(__file__)))
 CLAIMS = {
  # id: (category, text, note, technique, design_ref)
  "C01": ("proof",
+         "[session 3b] Also: Verus proof on the real continue_execution (extracted whole) that its dispatch table holds at every exit of the event loop: it leaves the loop with a breakpoint event only for a user breakpoint after exactly one on_breakpoint hook for that pc, or for a temporary breakpoint without a hook; with exit/signal/watchpoint events only after their hook; and it goes on silently only for internal breakpoints (entry point, linker map, transparent) or a signal stop of a finished debuggee. "
          "[session 3] Also: Verus proof that the real Debugger::step_over_breakpoint re-arms the breakpoint it stepped off on every successful return (local ghost flag, assert before every Ok exit), and a Kani proof that the TRAP_BRKPT arm of apply_new_status attributes the stop to the thread that trapped, at the rewound pc, marks it stopped and starts one group stop on its behalf. "
          "Kani/CBMC proofs (complete over all words, addresses and register files) of the two primitives every breakpoint stop is "
          "built from: Breakpoint::enable/disable arm and disarm exactly the requested address (shared with C02), and the TRAP_BRKPT "
@@ -38,6 +39,7 @@ CLAIMS = {
          "(std sort in the parser); PlaceDescriptor.file lookup dropped; prolog_start_place (gimli) external.",
          "Verus contracts on mechanically extracted real functions", "2/C04"),
  "C05": ("proof",
+         "[session 3b] Also: Verus proofs that the CFI lookups of UnwindContext::new (.eh_frame and the .debug_frame fallback) are handed the file-relative pc (address-space typing), and that the register+offset CFA rule of evaluate_cfa computes register value + signed offset. "
          "Kani/CBMC proofs, complete over all register values, of the register carriage used by the unwinder: the DWARF register "
          "numbers equal the psABI table, DwarfRegisterMap::from(RegisterMap) stores every register under its DWARF number and nothing "
          "else, update/update_from have the stated frame, and RelocatedAddress::offset computes CFA = register + offset exactly. "
@@ -55,6 +57,7 @@ CLAIMS = {
          "capacity are recorded preconditions.",
          "Kani full-domain proofs + Verus proof of an extracted statement fragment", "2/C06"),
  "C07": ("proof",
+         "[session 3b] Also: Verus proof that matching a set against an array literal consumes one literal entry (or wildcard) per set element (loop invariant over the real statements). "
          "[session 3] Also: Verus proof that the Array arm of the real Value::index returns the element at POSITION i of the (possibly sliced) sequence for 0 <= i < len and no result for any other literal, negative or out-of-range index. "
          "Verus proof (unbounded, all bounds and lengths) that the real ArrayValue::slice keeps exactly elements l..r-1 for in-range "
          "bounds and the clamped intersection otherwise, and leaves a value without items untouched. Scope: the array slice operator "
@@ -72,6 +75,7 @@ CLAIMS = {
          "recorded preconditions: read_n <= isize::MAX, addr <= i64::MAX (DAP path), len <= cap for the deque ring.",
          "Verus implicit obligations on mechanically extracted real functions", "2/C08"),
  "C13": ("proof",
+         "[session 3b] Also: Verus proofs of the replace protocol of handle_set_breakpoints / set_instruction / set_function breakpoints (the set that is removed from the debugger is the one stored under the same key / of the same kind; other kinds untouched; loop bodies outlined), of the stop filter loop of emit_stop_reason (the stop that is announced passed the exception filter and was not skipped; the debuggee is resumed once per filtered stop), of literal_truthy and of the evaluation order of evaluate_condition_expression. "
          "[session 3] Also: Verus proofs that the three record predicates of with_breakpoint_record_mut match a record iff the stop address is ANY of its addresses (first match), that should_skip_breakpoint decides exactly as the property says (condition false => skip silently; hit condition not met => skip; logpoint => log once and skip; otherwise stop) and that BreakpointRegistry::remove_by_addr removes whatever is registered under the address (installed or not) and nothing else. "
          "Kani/CBMC proof over all (N, hits) pairs that the real HitCondition::matches is the arithmetic relation its variant names "
          "(hitCondition N stops on the N-th hit and only then; an invalid condition never suppresses a stop). Scope: the hit-count "
@@ -99,6 +103,7 @@ CLAIMS = {
          "filter+for_each composition of the mask is assumed.",
          "Verus contracts on extracted real functions over a ghost memory model + Kani register proofs", "2/C15"),
  "C16": ("proof",
+         "[session 3b] Also: Kani proof that an integer literal that fits the parameter type is passed as its two's-complement image of the parameter's width (liter_to_arg_bin_repr, integer arm, all 64-bit values, all widths). "
          "[session 3] Also: Kani proof that make_formatter_bytes_rust_1_87_plus builds exactly the core::fmt::Formatter image of rustc >= 1.87 (two pointers, flags = fill ' ' | ALIGN_UNKNOWN | ALWAYS_SET). "
          "Kani/CBMC proofs that the real get_reg_for_no places argument n in the n-th SysV integer register and that "
          "CallArgs::prepare_registers writes exactly the arguments, in order, leaving all other registers unchanged (any argument count "
@@ -109,6 +114,7 @@ CLAIMS = {
          "psABI 3.2.3 register order typed into the harness as oracle.",
          "Kani proofs on the real crate, full-domain symbolic values", "2/C16"),
  "C18": ("proof",
+         "[session 3b] Also: Verus proof on the per-object body of update_mappings: the load offset of an object is the lowest start of its maps lines and its region ends at start+size of the highest one, both recorded under the object's path. "
          "[session 3] Also: Verus proofs that UninitBreakpoint::try_into_brkpt resolves a file-less address template against the object that contains the address (so a run-time address maps back to itself: into_global then relocate_to_segment), and that refresh_deferred keeps a deferred request exactly as long as it has not been installed. "
          "Kani/CBMC proof over all values that GlobalAddress::relocate and RelocatedAddress::remove_vas_region_offset are mutually "
          "inverse for every load offset; Verus proof that the real comparator of DwarfRegistry::find_range partitions any well-formed "
@@ -117,6 +123,7 @@ CLAIMS = {
          "std binary_search_by contract assumed for a partitioning comparator; wf_ranges (sorted, disjoint) assumed from the environment.",
          "Kani full-domain proof + Verus proof on the extracted comparator", "2/C18"),
  "C19": ("proof",
+         "[session 3b] Also: Verus proof on the per-piece body of into_raw_bytes: a register piece contributes the bytes of ITS size (capped at 8), a memory piece reads exactly its size, the first piece's address is the value's address. "
          "Kani/CBMC proofs that the DWARF<->machine register numbering of the real tables equals the psABI table (injective, every "
          "register retrievable under its number, nothing else present) and that GlobalAddress::in_range is the half-open range "
          "predicate used by the lexical-scope filter. Scope: the register tables and the range predicate; finding the enclosing "
@@ -124,6 +131,7 @@ CLAIMS = {
          "psABI Fig. 3.36 typed into the harness as oracle.",
          "Kani proofs on the real crate, full-domain symbolic inputs", "2/C19+C05"),
  "C11": ("proof",
+         "[session 3b] Also: Verus proof on the per-template body of enable_all_breakpoints that a breakpoint whose code is not mapped yet stays registered (found and repaired: fix ea880a9, breakpoints in dlopen'ed libraries were dropped by restart). "
          "[session 3] Also: Verus proofs on the real Drop::drop (launched process killed and reaped in every state; attached process released with all LIVE threads detached, no patch, no armed debug register, SIGCONT iff something was released), Debugger::restart_debugee (the new process is created only when the old one is gone; exactly one new process) and the per-breakpoint body of disable_all_breakpoints (user/entry breakpoints survive as one template keyed by the load-independent address with their number). "
          "Verus proof of the real Debugger::detach against a ghost protocol model: the threads are released with PTRACE_DETACH only "
          "after every INT3 patch was removed and every hardware debug register was cleared, SIGCONT is sent only to a released "
@@ -143,6 +151,7 @@ CLAIMS = {
          "InternalEvent reduced to the variants the function distinguishes.",
          "Verus modular proof with ghost wire history on the extracted real function", "4.1/C12"),
  "C10": ("proof",
+         "[session 3b] Also: Verus proofs on the real cont_stopped_ex / cont_stopped (sequence model of the thread table): only the requested thread, if stopped and not excluded, receives the requested signal, at most once. One defect is recorded as a KNOWN FINDING, not repaired (see known_findings.json / DESIGN 8.14): stepi at a signal stop followed by a second signal loses the first signal. "
          "[session 3] Also: Verus proof on the real Tracer::single_step (extracted whole, ghost ledger arrived/delivered) that every signal the debugger intercepts is delivered once or queued once (multiset balance) -- this unit found the quiet-signal double delivery repaired by fix c8e7fb7. "
          "Kani/CBMC proofs over all 31 signals that the quiet and transparent tables are exactly the sets of the property statement and "
          "that the signal-stop arm of apply_new_status queues every signal but SIGINT exactly once, at the back, with its thread, reports "
@@ -179,6 +188,7 @@ CLAIMS = {
          "ptrace event codes typed from ptrace(2); the two for loops rewritten to index loops; termination of the wait loop not claimed.",
          "Verus contracts on mechanically spliced match arms of the real function", "8.11/C09"),
  "C03": ("proof",
+         "[session 3b] Also: Verus proofs that a temporary step breakpoint stops only the thread that owns it (other threads pass over it silently) and that stepi / step_out restore the real frame before stepping. "
          "Verus proofs on the real step code: single_step_instruction executes exactly one instruction of the focused thread (through "
          "step_over_breakpoint when it stands on a breakpoint, otherwise Tracer::single_step of that thread; ghost step history), and the "
          "stop criterion of step_in's main loop is exactly: the place reached is a statement boundary and either the frame changed (CFA) or "
